@@ -9,6 +9,7 @@ sys.path.insert(0, os.path.join(os.path.dirname(os.path.abspath(__file__)), ".."
 import synclib  # noqa: E402
 
 T = synclib.TICK
+BIG = [False]      # thorough tier: 3-actor programs under the model checker more often
 TAUS = [0, 0, T // 1024, T // 4, T // 2, T, 3 * T // 2, 2 * T]
 
 
@@ -56,7 +57,7 @@ def gen_normal(rng, pid):
 
 
 def gen_mc(rng, pid):
-    na = 2 if rng.chance(3, 4) else 3
+    na = 3 if rng.chance(1, 3 if BIG[0] else 10) else 2
     cap = rng.below(2)
     p = {"id": pid, "sems": [(0, cap)], "actors": []}
     for a in range(na):
@@ -81,6 +82,7 @@ def nontrivial(it):
 
 
 def run(ctx):
+    BIG[0] = ctx.tier == "thorough"
     ctx.cov["rule"] = ("programs of 2-5 actors x 2-10 ops on 1-3 semaphores (capacity 0-3): acquire, acquire_timeout with dyadic "
                        "timeouts incl. 0, release, get_capacity, sleeps; classes: timeout coinciding exactly with a release (and "
                        "one tick before/after), FIFO queues with timeouts in the middle, random; MC: 2-3 actors without timeouts. "
